@@ -9,7 +9,12 @@ checks = sys.argv[2:] or [prop]
 src = f"/tmp/wt/{prop}/out"
 notes = open(os.path.join(src, "notes.md")).read() if os.path.exists(os.path.join(src, "notes.md")) else ""
 LABELS = os.environ.get("SEED_LABELS", "AB")  # where mutA/mutB are stored (e.g. CD for a second round)
-for m0, m in zip("AB", LABELS):
+PROPS = os.environ.get("SEED_PROPS", "").split(",") if os.environ.get("SEED_PROPS") else None  # property of mutA, of mutB (mixed batches)
+SRC = prop
+for k, (m0, m) in enumerate(zip("AB", LABELS)):
+    if PROPS:
+        prop = PROPS[k]
+        checks = [prop]
     patch, demo = f"{src}/mut{m0}.diff", f"{src}/demo{m0}.py"
     if not os.path.exists(patch):
         continue
